@@ -94,7 +94,7 @@ class Item:
         return '%s%d=%s[ %s]' % (p, self.tag, hx(self.val), ''.join('{ %s} ' % ''.join(i.spec() + ' ' for i in e) for e in self.elems))
 
 
-def gen_items(rng, sc, traits, sec, depth, p_opt, skip=(), with_data=True, data_tags=None):
+def gen_items(rng, sc, traits, sec, depth, p_opt, skip=(), with_data=True, data_tags=None, group_data=False):
     """a conforming set of items for one trait list, in schema position order"""
     by_tag = {t[0]: t for t in traits}
     items = []
@@ -127,7 +127,7 @@ def gen_items(rng, sc, traits, sec, depth, p_opt, skip=(), with_data=True, data_
             elems = []
             for _ in range(n):
                 # group elements never carry data pairs: decode_group has no length handling (C06 finding), generated separately
-                e = gen_items(rng, sc, gtraits, 'b', depth + 1, p_opt, with_data=False)
+                e = gen_items(rng, sc, gtraits, 'b', depth + 1, p_opt, with_data=group_data, data_tags=data_tags if group_data else None, group_data=group_data)
                 if not e or e[0].tag != first[0]:
                     fk = kind(sc, first[1])
                     if first[3] & F_GROUP:
@@ -146,12 +146,15 @@ def gen_items(rng, sc, traits, sec, depth, p_opt, skip=(), with_data=True, data_
     return items
 
 
-def gen_message(rng, sc, p_opt=None, msgtype=None, data_tags=None, with_data=True):
+def gen_message(rng, sc, p_opt=None, msgtype=None, data_tags=None, with_data=True, group_data=False, trailer_sig=False):
     mt, traits = rng.choice(sc['msgs']) if msgtype is None else [m for m in sc['msgs'] if m[0] == msgtype][0]
     p_opt = rng.choice((0.0, 0.15, 0.5, 0.9, 1.0)) if p_opt is None else p_opt
     h = gen_items(rng, sc, sc['header'], 'h', 0, p_opt * 0.6, with_data=with_data, data_tags=data_tags)
-    b = gen_items(rng, sc, traits, 'b', 0, p_opt, with_data=with_data, data_tags=data_tags)
+    b = gen_items(rng, sc, traits, 'b', 0, p_opt, with_data=with_data, data_tags=data_tags, group_data=group_data)
     t = gen_items(rng, sc, sc['trailer'], 't', 0, 0.0)      # 93/89 (Signature) is not an adjacent pair: C06 finding, generated separately
+    if trailer_sig:
+        d = gen_data(rng)
+        t = [Item('t', 93, str(len(d)).encode()), Item('t', 89, d)]
     return mt, h + b + t
 
 
@@ -247,6 +250,19 @@ def ref_tokens(sc, traits, items):
             g = sc['groups'][pos[it.tag][4]]
             for e in it.elems:
                 out += ref_tokens(sc, g, e)
+    return out
+
+
+def token_depths(sc, traits, items, depth=0):
+    """group nesting depth of every token of ref_tokens(sc, traits, items) (0 = section level, count fields included)"""
+    pos = {t[0]: t for t in traits}
+    out = []
+    for it in sorted(items, key=lambda i: eff_pos(pos[i.tag])):
+        out.append(depth)
+        if it.elems:
+            g = sc['groups'][pos[it.tag][4]]
+            for e in it.elems:
+                out += token_depths(sc, g, e, depth + 1)
     return out
 
 
@@ -667,6 +683,8 @@ def conformance(sc, raw):
                 classes.add('value-text-not-validated')
             if b'\x00' in val:
                 classes.add('nul-in-value')
+            if k == 'length' and CANON_INT.fullmatch(val) and not (0 <= int(val) <= 2047):
+                probs.append('Length field %d = %s outside 0..2047' % (tag, val.decode()))
             if tr[3] & F_GROUP and CANON_INT.fullmatch(val) and int(val) > 0:
                 g = sc['groups'][tr[4]]
                 first = min(g, key=lambda t: t[2])[0]
